@@ -22,6 +22,12 @@
    Open points of the statement are left open: *which* qualifying root is returned (least index or other) is only
    noted (soft), never a violation.
 
+   Known finding F2b (lastgersync/processor.go: a removal deletes the row for good, dropping the removing block does not
+   bring it back).  A withheld answer is tagged kf = "F2b" when every qualifying root is in `undone`: it was inserted
+   in a surviving block and a removal of that very root sat in a block (number already shown to the node) that was
+   reorged out of the chain or lay at/after the block R from which the node was told to forget.  Nothing is excused
+   here; the check decides what a tag means.
+
    Trace lines (ndjson), all consumed:
      {"ev":"cfg","id":I,"ng":N}                     new node on an empty database (starts a new trace); GER g has index g
      {"ev":"mine","n":B,"k":"none|ins|rem","g":G}   canonical block B produced
@@ -77,7 +83,9 @@ EvCfg ==
   /\ Is("cfg")
   /\ t' = t + 1 /\ ng' = Trace[l].ng
   /\ canon' = <<>> /\ ever' = {} /\ pending' = FALSE /\ polled' = -1 /\ undone' = {} /\ remAt' = {} /\ shown' = 0
-  /\ l' = l + 1 /\ UNCHANGED viol
+  /\ (viol = <<>> \/ PrintT(<<"VIOL", ToJson(viol)>>))      \* flushed per trace: keeps the monitor linear in the trace
+  /\ viol' = <<>>
+  /\ l' = l + 1
 
 EvMine ==
   /\ Is("mine")
@@ -110,7 +118,8 @@ EvDetect ==
          keep == IF R - 1 < Tip THEN R - 1 ELSE Tip
      IN undone' = IF R = 0 THEN undone
                   ELSE {p \in undone : p[1] < R}
-                       \cup {p \in Fold(canon, keep) : \E q \in remAt : q[1] >= R /\ q[1] <= shown /\ q[2] = p[2]}
+                       \cup {p \in {<<n, canon[n].g>> : n \in {m \in 1..keep : canon[m].k = "ins"}} :
+                               \E q \in remAt : q[1] >= R /\ q[1] <= shown /\ q[2] = p[2]}
   /\ l' = l + 1 /\ UNCHANGED <<t, ng, canon, ever, remAt, shown, viol>>
 
 EvRestart ==
